@@ -28,6 +28,14 @@ def cases(tier, seed):
             argl = [tuple(rng.choice(ARGS) for _ in range(k)) for _ in range(2 if tier == 'quick' else 6)]
             for args in argl:
                 add('function($p,$q)<%s%s>{[$p,$q]}(%s)' % (s1, s2, ', '.join(args)), doc, ('sig2',))
+    for s1, s2 in [('n-', 'n?'), ('s-', 's?'), ('x-', 'x?'), ('n-', 'n?n?'), ('s-', 'ns?'), ('a-', 'n?'), ('o-', 's?s?')]:
+        k = 1 + s2.count('n') + s2.count('s') + s2.count('x')
+        names = ', '.join('$p%d' % i for i in range(k))
+        for nargs in range(0, k + 2):
+            for _ in range(3):
+                args = ', '.join(rng.choice(ARGS) for _ in range(nargs))
+                for ctx in ['n', 'a', 'arr', 'o', 'list']:
+                    add('%s.function(%s)<%s%s>{[%s]}(%s)' % (ctx, names, s1, s2, names, args), doc, ('sig-ctx-opt',))
     for s in ['nn:n', 'n:n', ':n', 'n<s>', 'x<n>', '()', 'n??', '+', 'nns', 'q', 'a<n', '(n', 'a<>']:
         add('function($p)<%s>{$p}(1)' % s, doc, ('sigparse',))
         add('function($p,$q)<%s>{$p}(1,2)' % s, doc, ('sigparse',))
